@@ -345,22 +345,11 @@ def run(tier="quick", root="/repo", evidence_dir=None, quiet=False):
     rep.attempt(product_quad.rule_product_quadrature, rep, repo)
     r5_decided = len(rep.failed_floors) == before and not any(v["rule"].startswith("R5.") for v in rep.violations)
 
-    def structural(rule, *args):
-        """The lock-step rules argue for all sizes from the shape of the code.  When they do not recognise an idiom
-        and R5 has decided the sweep, that is recorded as a note instead of leaving the whole check undecided."""
-        try:
-            return rule(*args)
-        except AnalysisError as e:
-            if r5_decided:
-                rep.note(f"structural rule {rule.__name__} did not recognise the idiom ({str(e)[:160]}); the product-quadrature "
-                         f"rule R5 decided the bounded sweep of configurations")
-                return None
-            rep.failed_floors.append(str(e))
-            return None
-    P = structural(rule_r1, rep, repo)
-    structural(rule_r2_r3, rep, repo)
+    why = "the evaluation rule R5 decided that every route returns the full tensor-product quadrature for the sweep of configurations"
+    P = rep.backed(rule_r1, r5_decided, why, rep, repo, only=("R1.",))
+    rep.backed(rule_r2_r3, r5_decided, why, rep, repo, only=("R2.", "R3."))
     if P is not None:
-        structural(rule_r4, rep, repo, P)
+        rep.backed(rule_r4, r5_decided, why, rep, repo, P, only=("R4.",))
     # _chunked_iterator: islice of one shared iterator, stops on empty chunk
     g = repo.module_func("ngrid", "_chunked_iterator")
     txt = " ".join(norm(s) for s in g.node.body)
